@@ -340,6 +340,10 @@ class PyEval(MiniEval):
                             return r
                         break
                 continue
+            if isinstance(st, ast.Expr) and isinstance(st.value, ast.Yield):
+                # generator functions: the yielded values are collected in env["__yields__"], in order
+                env.setdefault("__yields__", []).append(self.ev(st.value.value, env) if st.value.value is not None else None)
+                continue
             if isinstance(st, ast.Delete) and all(isinstance(t, ast.Subscript) for t in st.targets):
                 for t in st.targets:
                     base = self.ev(t.value, env)
